@@ -2,6 +2,7 @@ package english
 
 import (
 	"sort"
+	"time"
 
 	sdk "github.com/cosmos/cosmos-sdk/types"
 
@@ -9,6 +10,7 @@ import (
 	auctiontypes "github.com/comdex-official/comdex/x/auction/types"
 	auctionsV2types "github.com/comdex-official/comdex/x/auctionsV2/types"
 	collectortypes "github.com/comdex-official/comdex/x/collector/types"
+	esmtypes "github.com/comdex-official/comdex/x/esm/types"
 
 	"vh/sim"
 )
@@ -55,6 +57,8 @@ type StA struct {
 	N1    int64                       `json:"n1"` // generation-1 auction id counter
 	N2    int64                       `json:"n2"` // generation-2 auction id counter
 	Tm    bool                        `json:"tm"`
+	Esm   bool                        `json:"esm"` // emergency shutdown of app 1 executed
+	Nfo   map[string]int64            `json:"nfo"` // recorded net fees of app 1 in its other assets
 	Panic bool                        `json:"panic"`
 }
 
@@ -127,6 +131,16 @@ func (w *World) ProjectA() StA {
 	s.N1 = int64(w.App.AuctionKeeper.GetAuctionID(w.Ctx))
 	s.N2 = int64(w.App.NewaucKeeper.GetAuctionID(w.Ctx))
 	_, s.Tm = w.App.TokenmintKeeper.GetTokenMint(w.Ctx, App1)
+	if es, ok := w.App.EsmKeeper.GetESMStatus(w.Ctx, App1); ok {
+		s.Esm = es.Status
+	}
+	s.Nfo = map[string]int64{}
+	for _, as := range []uint64{AssetHarbor, AssetAtom} {
+		s.Nfo[Denoms[as]] = 0
+		if x, ok := w.App.CollectorKeeper.GetNetFeeCollectedData(w.Ctx, App1, as); ok {
+			s.Nfo[Denoms[as]] = x.NetFeesCollected.Int64()
+		}
+	}
 	return s
 }
 
@@ -180,6 +194,13 @@ func (w *World) StartGeneric(lot, minBid int64) (err error) {
 	}
 	write()
 	return nil
+}
+
+// EsmOn: the app's emergency shutdown is executed (status record set through the esm keeper, like the repository's
+// tests; the cool-off end lies far beyond every behaviour so the redemption set-up of x/esm never starts).
+func (w *World) EsmOn() {
+	w.App.EsmKeeper.SetESMStatus(w.Ctx, esmtypes.ESMStatus{AppId: App1, Executor: sim.Addr(Treasury).String(), Status: true,
+		StartTime: w.Ctx.BlockTime(), EndTime: w.Ctx.BlockTime().Add(100000 * time.Hour)})
 }
 
 type errS string
